@@ -91,3 +91,9 @@ Theorem C08_unputs_then_rescanned : forall cs b b', FlexV.Unput.UInv b -> FlexV.
   FlexV.Unput.UInv b' /\ FlexV.Unput.u_unread b' = rev cs ++ FlexV.Unput.u_unread b.
 Proof. exact FlexV.Unput.unputs_unread. Qed.
 Print Assumptions C08_unputs_then_rescanned.
+
+(** a buffer made by yy_scan_bytes / yy_scan_string is exactly as large as its content: the first yyunput before anything
+    was consumed stops with "push-back overflow" (observed on compiled scanners by the unput grid) *)
+Theorem C08_unput_after_scan_bytes_overflows : forall data c, FlexV.Unput.unput (FlexV.Unput.scan_bytes data) c = None.
+Proof. exact FlexV.Unput.unput_after_scan_bytes_overflows. Qed.
+Print Assumptions C08_unput_after_scan_bytes_overflows.
